@@ -87,6 +87,8 @@ pub struct Shared {
     pub child_exec_failed: AtomicU32,
     /// set by the child when a fault was injected there
     pub child_fault_hit: AtomicU32,
+    /// nanosleep/clock_nanosleep calls made by a forked child before exec/_exit
+    pub child_sleeps: AtomicU32,
     /// fds the child had open pointing at registered pipes at exec time (unused)
     pub spare: [AtomicU64; 8],
 }
@@ -130,6 +132,7 @@ pub fn shared_reset() {
     s.child_deallocs.store(0, SeqCst);
     s.child_exec_failed.store(0, SeqCst);
     s.child_fault_hit.store(0, SeqCst);
+    s.child_sleeps.store(0, SeqCst);
 }
 
 // ---------------------------------------------------------------------------
@@ -738,6 +741,9 @@ pub unsafe extern "C" fn clock_gettime(clk: libc::clockid_t, ts: *mut timespec) 
 #[no_mangle]
 pub unsafe extern "C" fn nanosleep(req: *const timespec, rem: *mut timespec) -> c_int {
     bump();
+    if IN_CHILD.load(Relaxed) {
+        shared().child_sleeps.fetch_add(1, SeqCst);
+    }
     if SIM_CLOCK.load(Relaxed) {
         if let Some(s) = sim() {
             let ns = (*req).tv_sec as i64 * 1_000_000_000 + (*req).tv_nsec as i64;
@@ -751,6 +757,9 @@ pub unsafe extern "C" fn nanosleep(req: *const timespec, rem: *mut timespec) -> 
 #[no_mangle]
 pub unsafe extern "C" fn clock_nanosleep(clk: libc::clockid_t, flags: c_int, req: *const timespec, rem: *mut timespec) -> c_int {
     bump();
+    if IN_CHILD.load(Relaxed) {
+        shared().child_sleeps.fetch_add(1, SeqCst);
+    }
     if SIM_CLOCK.load(Relaxed) {
         if let Some(s) = sim() {
             let mut ns = (*req).tv_sec as i64 * 1_000_000_000 + (*req).tv_nsec as i64;
